@@ -120,7 +120,15 @@ class QModuleMixin(ABC):
         if activations is not None and not isinstance(activations, qtype):
             activations = qtypes[activations]
         self.weight_qtype = weights
-        self.weight_group_size = None
+        self.weight_group_size = self._default_weight_group_size()
+        self.activation_qtype = activations
+        self.optimizer = optimizer
+        # The activation scales must have the dtype and device of the module parameters
+        scale_kwargs = {k: v for k, v in kwargs.items() if k in ("dtype", "device")}
+        self.register_buffer("input_scale", torch.ones((), **scale_kwargs))
+        self.register_buffer("output_scale", torch.ones((), **scale_kwargs))
+
+    def _default_weight_group_size(self):
         if self.weight_qtype in (qint2, qint4):
             out_features = self.weight.shape[0]
             in_features = self.weight.numel() // out_features
@@ -129,13 +137,8 @@ class QModuleMixin(ABC):
                 while in_features % group_size != 0 and group_size > 32:
                     group_size -= 32
                 if in_features % group_size == 0:
-                    self.weight_group_size = group_size
-        self.activation_qtype = activations
-        self.optimizer = optimizer
-        # The activation scales must have the dtype and device of the module parameters
-        scale_kwargs = {k: v for k, v in kwargs.items() if k in ("dtype", "device")}
-        self.register_buffer("input_scale", torch.ones((), **scale_kwargs))
-        self.register_buffer("output_scale", torch.ones((), **scale_kwargs))
+                    return group_size
+        return None
 
     def _save_to_state_dict(self, destination, prefix, keep_vars):
         if self.weight is None:
@@ -161,6 +164,8 @@ class QModuleMixin(ABC):
     ):
         weight_qtype = state_dict.pop(prefix + "weight_qtype")
         self.weight_qtype = None if weight_qtype == "none" else qtypes[weight_qtype]
+        # The group size is not serialized: evaluate it again for the deserialized weight qtype
+        self.weight_group_size = self._default_weight_group_size()
         activation_qtype = state_dict.pop(prefix + "activation_qtype")
         self.activation_qtype = None if activation_qtype == "none" else qtypes[activation_qtype]
 
